@@ -331,7 +331,29 @@ def rule_watcher_wiring(ctx):
     shared.check_watcher_wired(ctx, "a change that a restart would find by rescanning never reaches the workflow in watch mode")
 
 
+def rule_new_inputs_watched(ctx):
+    """R-C14-8: a file node that comes into being as somebody's input has its directory watched, attached or not.
+
+    A restart rescans every file node by path.  A node created while resolving an input (adopted by a static tree, or
+    undeclared) that is never declared by itself is only noticed by the watcher if its directory is watched from the
+    moment the node exists; `watch_known_dirs` only helps after the next restart.
+    """
+    rs = ctx.prog.func("workflow.Workflow._resolve_supply_file")
+    n = 0
+    for tr, st in flow.paths_of(rs):
+        creates = [k for k, e in enumerate(tr) if e[0] == "call" and e[1] == "self.create"]
+        if not creates or st == "raise":
+            continue
+        n += 1
+        watched = any(e[0] == "call" and e[1] == "self.watch_dir" and "parent" in ast.unparse(e[2]) for e in tr[creates[0]:])
+        if not watched:
+            ctx.bad(rs.fq, "every input node created here has its directory watched", f"a path that creates a file node ({ast.unparse(tr[creates[0]][2])[:70]}) does not call watch_dir: an edit of that input in the watch phase is not seen, the rebuild leaves its consumers up to date, a restart rebuilds them", where=ctx.where_of(rs, tr[creates[0]][2]))
+            return
+    ctx.check(n >= 2, rs.fq, "every input node created here has its directory watched", f"only {n} creating path(s) found", f"{n} paths")
+
+
 RULES = [
+    Rule("R-C14-8", "new input nodes are watched from the start", rule_new_inputs_watched, min_instances=1),
     Rule("R-C14-7", "events travel from inotify to the workflow", rule_watcher_wiring, min_instances=4),
     Rule("R-C14-1", "same reactions on both sides", rule_same_reactions, min_instances=10),
     Rule("R-C14-2", "same relevance filter", rule_same_filter, min_instances=5),
@@ -342,6 +364,7 @@ RULES = [
 ]
 
 MUTANTS = [
+    Mutant("adopted-inputs-not-watched", "workflow.py", in_function("Workflow._resolve_supply_file", replace_once("            detached = False\n            self.watch_dir(Path(path).parent)\n", "            detached = False\n")), ("R-C14-8",)),
     Mutant("file-events-not-queued", "watcher.py", in_function("AsyncInotifyWrapper.change_loop", replace_once("            else:\n                self.change_queue.put_nowait((change, path))\n", "            else:\n                pass\n")), ("R-C14-7",)),
     Mutant("new-directory-files-not-queued", "watcher.py", in_function("AsyncInotifyWrapper.change_loop", replace_once("                                self.change_queue.put_nowait((Change.UPDATED, sub_path))\n", "                                pass\n")), ("R-C14-7",)),
     Mutant("watch-phase-events-not-recorded", "watcher.py", in_function("Watcher.run_once", replace_once("            async with self.db:\n                await self.record_change(change, path)\n", "            pass\n")), ("R-C14-7",)),
